@@ -41,3 +41,4 @@ run C04-c C20 C04;     run C08-c C08 C07
 run C18-c C18;         run C20-c C20
 run C09-d C06 C09
 run C11-d C11 C01
+run C12-d C18 C12
